@@ -16,7 +16,7 @@ Local Open Scope list_scope.
 (* the reasons excluded at every instruction start *)
 Definition operand_reason (r : reason) : bool :=
   match r with
-  | RUndecodable | RConstOutOfRange | RConstKind | RJumpFinallyNoReturn => true
+  | RUndecodable | RConstOutOfRange | RConstKind | RJumpFinallyNoReturn | RUpvalueOutOfRange => true
   | _ => false
   end.
 
@@ -94,7 +94,7 @@ Lemma step_reasons P F g s ii nx :
   (iop ii = OpJumpFinally -> byte_at (code F) nx = Some 57%N) ->
   forall r, step false P F s = Stuck r -> verdict_ok ii r.
 Proof.
-  intros HM Hd (Os & Oc & Ocl & Ou) HJ HL HF r H.
+  intros HM Hd (Os & Oc & Ocl & Ou & Od) HJ HL HF r H.
   unfold step, step_at in H. fold (decode P F (pc s)) in H. rewrite Hd in H.
   destruct (STACK_MAX <? h s)%N. { inversion H; subst. ben. }
   destruct (simple_effect F ii (h s)) as [e|] eqn:Es.
@@ -135,11 +135,12 @@ Proof.
       apply exc_edge_reason in H. subst. ben.
     + (* Closure *)
       destruct (uvs_ok F (h s) (iuvs ii)) as [r0|] eqn:Eu; [|discriminate]. inversion H; subst.
-      assert (Hr : r = RLocalOutOfRange \/ r = RUpvalueOutOfRange).
-      { clear -Eu. induction (iuvs ii) as [|[[] x] l IH]; simpl in Eu. discriminate.
-        destruct (x <=? h s)%N; auto. inversion Eu; auto.
-        destruct (x <? upvalue_count F)%N; auto. inversion Eu; auto. }
-      destruct Hr as [-> | ->]. ben. split; [reflexivity|]. split; intros; auto; discriminate.
+      assert (Hr : r = RLocalOutOfRange).
+      { specialize (Od eq_refl). clear -Eu Od HM. induction (iuvs ii) as [|[[] x] l IH]; simpl in Eu. discriminate.
+        - inversion Od; subst. destruct (x <=? h s)%N; auto. inversion Eu; auto.
+        - inversion Od as [|? ? H1 H2]; subst. simpl in H1. rewrite (m_upv _ _ _ HM) in Eu.
+          specialize (H1 eq_refl). apply N.ltb_lt in H1. rewrite H1 in Eu. auto. }
+      subst. ben.
     + (* CloseUpvalue *) destruct (arity F <? h s)%N; [discriminate|]. inversion H; subst. ben.
     + (* Return *) destruct (h s =? 0)%N. { inversion H; subst. ben. }
       destruct (handlers s), (pending s); try discriminate; inversion H; subst; ben.
